@@ -173,6 +173,9 @@ Definition parse_f64 (v : aval) : outcome unit := match v with VNum _ => Ok tt |
 (* `v[0]` *)
 Definition first_or_panic {A} (l : list A) : outcome A :=
   match l with x :: _ => Ok x | [] => Panic end.
+(* `.find(..).ok_or_else(..)?` *)
+Definition first_or_err {A} (l : list A) : outcome A :=
+  match l with x :: _ => Ok x | [] => Err end.
 
 Definition ignore {A} (o : outcome A) : outcome unit := obind o (fun _ => Ok tt).
 
@@ -227,12 +230,12 @@ Definition sheet_skel (x : xml) : outcome aval :=
   | Some _ => Err
   end)))).
 
-(* `sheets[index]` *)
+(* `sheets.get(index).ok_or_else(..)?` (repaired by d5aa85e; was `sheets[index]`) *)
 Definition defined_name_skel (nsheets : Z) (x : xml) : outcome unit :=
   obind (req A_NAME x) (fun _ =>
   match attr A_LOCALSHEETID x with
   | None => Ok tt
-  | Some v => obind (parse_usize v) (fun i => if i <? nsheets then Ok tt else Panic)
+  | Some v => obind (parse_usize v) (fun i => if i <? nsheets then Ok tt else Err)
   end).
 
 (* result: the r:id of every sheet, and the number of defined names *)
@@ -489,7 +492,8 @@ Definition load_sheet_skel (parts : list (Z * fstate)) (target : aval) : outcome
   obind (open_part parts (ws_part target)) (fun ws =>
   obind (load_columns_skel ws) (fun _ =>
   obind (load_sheet_color_skel ws) (fun _ =>
-  obind (first_or_panic (kids_with T_SHEETDATA ws)) (fun sheet_data =>
+  (* `.find(sheetData).ok_or_else(..)?` (repaired by 2db1935; was `.collect::<Vec<_>>()[0]`) *)
+  obind (first_or_err (kids_with T_SHEETDATA ws)) (fun sheet_data =>
   obind (oiter row_skel (children sheet_data)) (fun _ =>
   obind (match kids_with T_MERGECELLS ws with
          | [mc] => oiter (fun m => ignore (req A_REF m)) (children mc)
@@ -498,9 +502,9 @@ Definition load_sheet_skel (parts : list (Z * fstate)) (target : aval) : outcome
   oiter hyperlink_skel (flat_map (kids_with T_HYPERLINK) (kids_with T_HYPERLINKS ws)))))))).
 
 (* ---- worksheets.rs load_sheets -------------------------------------------------------------------- *)
-(* `&rels[&sheet.id]` *)
+(* `rels.get(&sheet.id).ok_or_else(..)?` (repaired by f8b4521; was `&rels[&sheet.id]`) *)
 Definition rel_index (rels : list relrec) (rid : aval) : outcome relrec :=
-  match rel_lookup rid rels with Some r => Ok r | None => Panic end.
+  match rel_lookup rid rels with Some r => Ok r | None => Err end.
 
 Definition is_worksheet_rel (r : relrec) : bool := ty_class (r_type r) =? 0.
 
